@@ -97,6 +97,26 @@ def operand_of_leaf(facts, x):
     return None
 
 
+def write_elided_unchanged(facts, o, label, width):
+    """A success path without a write to operand 0 is equivalent to one with the write iff the value that would be
+    written is the operand's own entry value: the result the path hands to the flag setter is the unmodified read of
+    operand 0 at the operand's width. Never for a 32-bit register destination (the write is what clears bits 63:32)."""
+    if width is None or (label == "reg" and width == 32):
+        return False
+    sf = [e for e in o.path.events if e[0] == "set_flags"]
+    if not sf or sf[-1][1] != width:
+        return False
+    t = sf[-1][4]
+    while True:
+        if t[0] == "w" and t[2] >= width:
+            t = t[1]
+        elif t[0] == "cast" and t[2] >= width and t[4] >= width:
+            t = t[1]
+        else:
+            break
+    return t[0] in ("reg", "mem") and t[1] == width and operand_of_leaf(facts, t) == 0 and (len(t) < 4 or t[3] == 0)
+
+
 def ring(ctx):
     """C01.ring: for the ring-operation forms the written value is congruent to the architectural result modulo 2^K for
     every residue of the operands (congruence abstraction; decides the low K bits of the result for all operand values)."""
@@ -434,7 +454,7 @@ def handlers(ctx):
                             acc_bad = acc_bad or "%s at a non-operand address %s" % (e[0], A.show(addr))
                 if acc and acc[0] in MUST_WRITE_ACC and not wrote_op0 and not is_cf and oc["mnemonic"] not in STACK_MNEMONICS:
                     # conditional forms are judged per flag class below
-                    if oc["cc"] == "None":
+                    if oc["cc"] == "None" and not write_elided_unchanged(facts, o, label, KIND_BITS.get(oc["kinds"][0])):
                         acc_bad = acc_bad or "operand 0 not written on a success path, architecture access %s" % acc[0]
                 # implicit registers that must be written
                 if oc["mnemonic"] not in STACK_MNEMONICS and not is_cf:
